@@ -7,7 +7,7 @@
 From LC Require Import Lib.Bytes Lib.Lex Lib.Fields Lib.PathM Gen.Consts
   Model.MountInfo Model.FsTree Model.Kernel Model.Layers Cases.Verdict Cases.LC Cases.C01
   Proofs.MntTraceP Proofs.MntNeededP Proofs.MntOrderP Proofs.MntKernelP Proofs.MntPostP Proofs.C01P
-  Proofs.C01HoldsP.
+  Proofs.C01HoldsP Proofs.MntClearP.
 Import LC LCS.
 Open Scope N_scope.
 
@@ -64,6 +64,8 @@ Example C01_hyps_nontrivial :
   /\ wf_table (ks_tab (wo_ks w_good)) = true
   /\ is_abs (c_layers ex_cfg) = true
   /\ rbind_clear ex_cfg (chain ex_cfg (wo_fs w_good) d1) = true
+  /\ chain_no_kf1 (chain ex_cfg (wo_fs w_good) d1) = true
+  /\ builds_apart ex_cfg (chain ex_cfg (wo_fs w_good) d1) = true
   /\ pre_right ex_cfg (wo_fs w_good) (chain ex_cfg (wo_fs w_good) d1) (ks_tab (wo_ks w_good)) = true
   /\ nodup_targets ex_cfg (chain ex_cfg (wo_fs w_good) d1) = true
   /\ nocomma_paths ex_cfg (layers_on_disk ex_cfg (wo_fs w_good)) (chain ex_cfg (wo_fs w_good) d1) = true
@@ -167,17 +169,17 @@ Definition c_r : LC.case := case_of ex_cfg w_r ex_env (CMount d1).
 Example C01_refuted_1_witness :
   C01.wf c_r = true /\ LC.corr c_r = true /\ C01.kf c_r = 1 /\ C01.spec c_r = false
   /\ rbind_clear ex_cfg (chain ex_cfg (wo_fs w_r) d1) = false
+  /\ chain_no_kf1 (chain ex_cfg (wo_fs w_r) d1) = false
   /\ v_res v_r = ROk
   /\ count_at (ks_tab (wo_ks (v_after v_r))) (bs "/b/layers/d1/build/mnt/sub") = 2%nat.
 Proof. vm_compute. repeat split; reflexivity. Qed.
 
-(* ------------------------------------------------------------------ kf = 0 is not enough: rbind ABOVE A LATER import *)
+(* ------------------------------------------------------------------ known finding 1, an rbind ABOVE A LATER import *)
 (* `import rbind /host /mnt` followed by `import bind /other /mnt/sub`; on the host /host/sub
    carries two stacked binds of /other.  The recursive bind copies both onto <build>/mnt/sub;
    the later import finds its mountpoint mounted with the expected source and is skipped; ROk
-   with two mounts on a mountpoint that had none.  rbind_over_earlier does not see it (the
-   covered import comes LATER), so kf = 0, the case is well-formed and corresponds: the
-   statement `wf c -> kf c = 0 -> corr c -> spec c` is false *)
+   with two mounts on a mountpoint that had none.  Since the class was widened
+   (rbind_over_other: another import, earlier or later) the case is in class 1 *)
 Definition cfg_q : bytes :=
   bs "base base0" ++ nlb ++ bs "import rbind /host /mnt" ++ nlb ++ bs "import bind /other /mnt/sub" ++ nlb.
 Definition fs_q : fsT := fs_r ++ dirs ["/other"]%string.
@@ -188,8 +190,9 @@ Definition ks_q : kstate :=
 Definition w_q : wobs := world fs_q [] cfg_q ks_q.
 Definition v_q : sview := mview ex_cfg w_q ex_env d1 [].
 Definition c_q : LC.case := case_of ex_cfg w_q ex_env (CMount d1).
-Example C01_holds_refuted_rbind_over_later :
-  C01.wf c_q = true /\ LC.corr c_q = true /\ C01.kf c_q = 0 /\ C01.spec c_q = false
+Example C01_refuted_1_later_import_witness :
+  C01.wf c_q = true /\ LC.corr c_q = true /\ C01.kf c_q = 1 /\ C01.spec c_q = false
+  /\ chain_no_kf1 (chain ex_cfg (wo_fs w_q) d1) = false
   /\ rbind_clear ex_cfg (chain ex_cfg (wo_fs w_q) d1) = false
   /\ v_res v_q = ROk
   /\ count_at (ks_tab (wo_ks w_q)) (bs "/b/layers/d1/build/mnt/sub") = 0%nat
